@@ -12,7 +12,7 @@ Lemma SameReads_cleared st st' removed :
   (forall a b, In a removed -> In (a, b) (s_edges st) -> In b removed) ->
   SameReads st st'.
 Proof.
-  intros ((HI & C & SO) & Hs & Hrs & Hok) CL Hclosed.
+  intros ((HI & C & SO) & Hs & Hrs) CL Hclosed.
   assert (Hdefs : defs_of st' = defs_of st).
   { unfold defs_of. now rewrite (cl_cells _ _ _ CL), (cl_refs _ _ _ CL). }
   assert (Hinp : forall i, mem_node (node_of i) removed = false ->
@@ -34,7 +34,6 @@ Proof.
     - intros r _. now rewrite Hdefs.
     - intros r Hr. now rewrite Hdefs.
     - intros i Hi. now apply Hinp.
-    - exact Hok.
     - intros m Hm Hni Hpi _. destruct (lookup_data (s_data st) m) as [v|] eqn:El; [|now elim Hm].
       destruct (cv_reads _ C m v El Hni) as (f & ds & A & B).
       exists f, v, ds. split; [exact A|]. eapply Hsafe; eauto. }
@@ -99,7 +98,7 @@ Lemma SameReads_store_input st i v cl :
   SameReads st (upd_inputs (g_add_node (upd_data st (set_data (s_data st) i v)) (node_of i))
                            (add_item i (s_inputs st))).
 Proof.
-  intros ((HI & C & SO) & Hs & Hrs & Hok) Hnone El Ec.
+  intros ((HI & C & SO) & Hs & Hrs) Hnone El Ec.
   set (st' := upd_inputs (g_add_node (upd_data st (set_data (s_data st) i v)) (node_of i))
                          (add_item i (s_inputs st))).
   assert (Hnh : ~ has st i) by (unfold has; congruence).
@@ -120,7 +119,6 @@ Proof.
     - intros r _. reflexivity.
     - intros r Hr. exact Hr.
     - intros m Hm. now apply Hinp.
-    - exact Hok.
     - intros m Hm Hni Hpi _. destruct (lookup_data (s_data st) m) as [w|] eqn:Elm; [|now elim Hm].
       destruct (cv_reads _ C m w Elm Hni) as (f & ds & A & B).
       exists f, w, ds. split; [exact A|]. eapply Hsafe; eauto. }
@@ -138,7 +136,7 @@ Lemma SameReads_redefine_cell st c newcl :
   Quiet st -> (forall n, In n (s_nodes st) -> node_obj n <> c) ->
   SameReads st (upd_cells st (set_cell (s_cells st) c newcl)).
 Proof.
-  intros ((HI & C & SO) & Hs & Hrs & Hok) Hno.
+  intros ((HI & C & SO) & Hs & Hrs) Hno.
   set (st' := upd_cells st (set_cell (s_cells st) c newcl)).
   assert (Hlk : forall c', c' <> c -> lookup_cell (s_cells st') c' = lookup_cell (s_cells st) c').
   { intros c' Hc'. simpl. rewrite lookup_set_cell.
@@ -157,7 +155,6 @@ Proof.
     - intros r _. reflexivity.
     - intros r Hr. exact Hr.
     - intros i _. reflexivity.
-    - exact Hok.
     - intros m Hm Hni _ _. destruct (lookup_data (s_data st) m) as [w|] eqn:Elm; [|now elim Hm].
       destruct (cv_reads _ C m w Elm Hni) as (f & ds & A & B).
       exists f, w, ds. split; [exact A|]. eapply Hsafe; eauto. }
@@ -196,7 +193,7 @@ Proof.
   assert (Hno3 : forall j, ~ In (r, j) (s_redges st3)).
   { intros j Hin. apply (Hno2 j). now apply (sh_redges _ _ S3). }
   assert (Er3 : lookup_ref (s_refs st3) r = Some (sp, w)) by (now rewrite Hrefs).
-  pose proof Q3 as ((HI & C & SO) & Hs & Hrs & Hok).
+  pose proof Q3 as ((HI & C & SO) & Hs & Hrs).
   assert (Hlk : forall r', r' <> r -> lookup_ref (s_refs st4) r' = lookup_ref (s_refs st3) r').
   { intros r' Hr'. simpl. rewrite lookup_set_ref by congruence.
     destruct (Nat.eqb r' r) eqn:E; [apply Nat.eqb_eq in E; contradiction|reflexivity]. }
@@ -238,7 +235,6 @@ Proof.
     - intros r' Hn. simpl. rewrite lookup_set_ref by congruence.
       destruct (Nat.eqb r' r) eqn:E; [apply Nat.eqb_eq in E; subst; congruence|exact Hn].
     - intros i _. reflexivity.
-    - exact Hok.
     - intros m Hm Hni _ _. destruct (lookup_data (s_data st3) m) as [wv|] eqn:Elm; [|now elim Hm].
       destruct (cv_reads _ C m wv Elm Hni) as (f & ds & A & B).
       exists f, wv, ds. split; [exact A|]. eapply Hsafe; eauto. }
@@ -288,12 +284,12 @@ Proof.
   - inversion H; subst. exact (proj2 (QE_clear_all_values st c false (conj Q X))).
   - inversion H; subst. exact (proj2 (QE_clear_all_values st c true (conj Q X))).
   - (* set formula *)
-    destruct Hop as (Hb & _). unfold set_formula in H.
+    unfold set_formula in H.
     destruct (lookup_cell (s_cells st) c) as [cl|] eqn:El; inversion H; subst; [|exact X].
     destruct (QE_clear_obj st c (conj Q X)) as (Q1 & X1).
     assert (Hno : forall n, In n (s_nodes (clear_obj st c)) -> node_obj n <> c)
       by (intros n Hn; now apply clear_obj_nodes in Hn).
-    eapply Exa_shrink; [exact Q1|apply Quiet_redefine_cell; [exact Q1|exact Hno|exact Hb]|exact X1| |].
+    eapply Exa_shrink; [exact Q1|apply Quiet_redefine_cell; [exact Q1|exact Hno]|exact X1| |].
     + apply SameReads_redefine_cell; assumption.
     + intros e He. exact He.
   - (* set cached *)
@@ -303,8 +299,7 @@ Proof.
     destruct (QE_clear_obj st c (conj Q X)) as (Q1 & X1).
     assert (Hno : forall n, In n (s_nodes (clear_obj st c)) -> node_obj n <> c)
       by (intros n Hn; now apply clear_obj_nodes in Hn).
-    eapply Exa_shrink; [exact Q1|apply Quiet_redefine_cell; [exact Q1|exact Hno|]|exact X1| |].
-    + simpl. destruct Q as (_ & _ & _ & Hok). eapply Hok; eauto.
+    eapply Exa_shrink; [exact Q1|apply Quiet_redefine_cell; [exact Q1|exact Hno]|exact X1| |].
     + apply SameReads_redefine_cell; assumption.
     + intros e He. exact He.
   - eapply Exa_set_ref; eauto. split; assumption.
@@ -335,7 +330,7 @@ Qed.
 (** * C08: in every state a history reaches, the predecessors of an element
     holding a computed value are exactly the reads of its formula *)
 Theorem preds_are_exactly_the_reads fuel cells refs maxd ops xs st :
-  defs_ok cells -> refn_ok (init cells refs maxd) -> ops_ok2 fuel (init cells refs maxd) ops ->
+  refn_ok (init cells refs maxd) -> ops_ok2 fuel (init cells refs maxd) ops ->
   run fuel (init cells refs maxd) ops = (xs, st) -> no_fuel_out xs -> s_reent st = false ->
   forall j v, lookup_data (s_data st) j = Some v -> mem_item j (s_inputs st) = false ->
   exists f ds, dr_own f (defs_of st) (input_data st) j = (Val v, ds) /\
@@ -344,8 +339,8 @@ Theorem preds_are_exactly_the_reads fuel cells refs maxd ops xs st :
     (* and every recorded predecessor is a read *)
     (forall a, In (a, node_of j) (s_edges st) -> In (rd_of_node a) ds).
 Proof.
-  intros Hok Hrn Hops Hrun Hnf Hre j v Hl Hm.
-  destruct (run_Exa _ _ _ _ _ Hrun Hnf (Quiet_init cells refs maxd Hok) Hrn eq_refl Hops (Exa_init cells refs maxd))
+  intros Hrn Hops Hrun Hnf Hre j v Hl Hm.
+  destruct (run_Exa _ _ _ _ _ Hrun Hnf (Quiet_init cells refs maxd) Hrn eq_refl Hops (Exa_init cells refs maxd))
     as [R|(Q & _ & X)]; [congruence|].
   destruct Q as ((_ & C & _) & _).
   destruct (cv_reads _ C j v Hl Hm) as (f & ds & A & B).
